@@ -137,7 +137,9 @@ def _normalize_parsed_value_elements(
 
     if hasattr(parsed, "information"):
         notification_body = parsed.information.notification_body
-        dictionary[obis_map.FIELD_METER_DATETIME] = parsed.information.DateTime.datetime
+        apdu_datetime = parsed.information.DateTime
+        if hasattr(apdu_datetime, "datetime"):  # null-data when the APDU has no date-time
+            dictionary[obis_map.FIELD_METER_DATETIME] = apdu_datetime.datetime
     else:
         notification_body = parsed
 
